@@ -99,6 +99,11 @@ pub fn io_tap_len() -> usize {
     IO_LOG.lock().len()
 }
 
+/// Copy of the events recorded since index `from` (recording goes on).
+pub fn io_tap_since(from: usize) -> Vec<IoEvent> {
+    IO_LOG.lock().iter().skip(from).cloned().collect()
+}
+
 #[inline]
 pub fn io_enabled() -> bool {
     IO_ON.load(Ordering::Relaxed)
